@@ -1,3 +1,4 @@
+mod alloc;
 mod catalogue;
 mod dynty;
 mod gen;
@@ -11,6 +12,9 @@ mod script;
 
 use gen::Gen;
 use ops::Budget;
+
+#[global_allocator]
+static GLOBAL: alloc::Counting = alloc::Counting;
 
 fn main() {
     let args: Vec<String> = std::env::args().collect();
